@@ -12,6 +12,13 @@ Open Scope N_scope.
 Theorem c18_translators_ok : HpackTables_translator_ok = true /\ H2Src_translator_ok = true.
 Proof. split; exact (eq_refl true). Qed.
 
+(* the strings of a literal that is inserted into the dynamic table are decoded also while emitting is switched off (a
+   rejected block is decoded to its end to keep the table in step with the peer's encoder): parseFieldLiteral passes
+   `d.emitEnabled || it.indexed()` to readString - what parse_repr's `want` is (Model/Hpack.v); read from hpack.go on
+   every run.  A readString deciding from emitEnabled alone inserts EMPTY strings (seed C18-f). *)
+Theorem c18_hpack_indexed_literals_read_while_not_emitting : h2_hpack_indexed_strings_read = true.
+Proof. exact (eq_refl true). Qed.
+
 (* ------------------------------------------------------------------ HPACK primitives *)
 (* Integers (RFC 7541 5.1): every prefix size 1..8, every flag in the bits above the prefix, every value
    below readVarInt's own limit 2^63 (Go uint64 arithmetic is in the model), any continuation. *)
